@@ -261,7 +261,7 @@ def gen_scripts(rng, world, ctx):
             st.append({"op": "optimize", "obj": P, "solver": rng.choice([None, None, "SCIPY"]),
                        "fault": ("raise" if rng.random() < 0.1 else None)})
             if rng.random() < 0.5:
-                st.append({"op": "extract", "obj": P})
+                st.append({"op": rng.choice(["extract", "extract", "dcf"]), "obj": P})
             if rng.random() < 0.5:
                 fid = "f%d" % fix_n[0]
                 fix_n[0] += 1
@@ -348,7 +348,7 @@ def gen_scripts(rng, world, ctx):
             g = rng.choice(grids)
             p = _p(rng, ctx, g)
             st.append({"op": "a.setup", "obj": X, "grid": g, "prices": p, "cast": _cast(rng, world, p), "costs_only": False})
-        st.append({"op": rng.choice(["to_json", "roundtrip", "params", "to_json_file"]), "obj": X,
+        st.append({"op": rng.choice(["to_json", "roundtrip", "params", "to_json_file", "set_param"]), "obj": X,
                    "fault": ("eio" if rng.random() < 0.15 else None)})
         if X[0] == "P" and rng.random() < 0.3:
             st.append({"op": "graph", "obj": X})
@@ -1025,6 +1025,17 @@ class Exec:
                     self.stats["calls"] -= 1
                     return
                 eao.io.extract_output(self.B.portfolio(st["obj"]), rec["op"], rec["res"])
+            elif op == "dcf":
+                # per-asset evaluation of an earlier result: discounted cash flows, fill levels of storages
+                rec = self.last.get(st["obj"])
+                if rec is None or rec.get("res") is None or isinstance(rec["res"], str):
+                    self.stats["noop_steps"] += 1
+                    self.stats["calls"] -= 1
+                    return
+                for a_ in self.B.portfolio(st["obj"]).assets:
+                    a_.dcf(rec["op"], rec["res"])
+                    if hasattr(a_, "fill_level"):
+                        a_.fill_level(rec["op"], rec["res"])
             elif op == "io.optimize":
                 # the shortcut casts the data, sets the problem up, solves and extracts: its value is a function of the
                 # problem it built, so it is judged like a set-up (same solver on the same problem gives the same value)
@@ -1072,6 +1083,14 @@ class Exec:
             elif op == "g.wacc":
                 self.B.grid(st["grid"]).set_wacc(st["wacc"])
                 M.grid_wacc[st["grid"]] = st["wacc"]
+            elif op == "set_param":
+                # io.set_param returns a new object built through JSON; the object it was given must stay as it was
+                o = self.B.obj(st["obj"])
+                tree = eao.io.get_params_tree(o)[0]
+                path = ["name"] if "name" in tree else next((list(t_) for t_ in tree if isinstance(t_, list) and t_ and t_[-1] == "name"), None)
+                if path is not None:
+                    eao.io.set_param(o, path, "renamed")
+                    self.probe("set_param_called")
             elif op in ("to_json", "roundtrip", "params", "to_json_file"):
                 o = self.B.obj(st["obj"])
                 if any(a in M.chp_setup for a in subtree_assets(self.w, st["obj"])):
